@@ -118,8 +118,9 @@ End Graph.
    Every library x defines one symbol [sym x] (the static, shared and whole-archive variants of one
    project library define the same symbol); the archive member that defines it references the symbols
    of [refs x] (the code need not use every declared dependency, so refs is a sub-list of deps).  An
-   archive member is pulled in only when it defines a currently undefined symbol; whole-archives and
-   shared libraries are taken without being needed; a shared library is already linked (its own
+   archive member is pulled in only when it defines a currently undefined symbol; whole-archives (and,
+   without --as-needed, shared libraries) are taken without being needed: [always]; a shared library is
+   already linked (its own
    references are resolved inside it or through its DT_NEEDED entries): refs is empty for it.  A
    library whose symbol is already defined is skipped (outside the model: whole-archive of an already
    defined symbol, which real ld rejects or pulls in again). *)
@@ -201,7 +202,10 @@ Section Project.
   (* what the member of an archive references: the declared dependencies the code really uses *)
   Definition p_refs (l : lib) : list lib :=
     filter (fun y => existsb (Nat.eqb (lib_node y)) (pn_uses (node_of l))) (p_deps l).
-  Definition p_always (l : lib) : bool := match lib_variant l with VStatic => false | _ => true end.
+  (* taken without being needed: whole-archives always; shared libraries unless the linker runs with
+     --as-needed (the default of some distributions' gcc), where they behave like archives *)
+  Definition p_always (as_needed : bool) (l : lib) : bool :=
+    match lib_variant l with VStatic => false | VWhole => true | VShared => negb as_needed end.
   Definition p_sym (l : lib) : N := l / 3.
   (* the libs= argument of the link step that makes variant v of node n, after conversion *)
   Definition p_user (n : nat) (consumer_static : bool) : list lib :=
@@ -314,6 +318,6 @@ Section ProjectLink.
                                    | _ => []
                                    end))
                (p_final_libs fixed n false).
-  Definition p_ld_links (roots line : list lib) : bool :=
-    ld_links (p_refs mode_shared mode_static proj) p_sym p_always roots line.
+  Definition p_ld_links (as_needed : bool) (roots line : list lib) : bool :=
+    ld_links (p_refs mode_shared mode_static proj) p_sym (p_always as_needed) roots line.
 End ProjectLink.
